@@ -38,6 +38,8 @@ def verify_function(prog, fv, setup, goals, contracts=None, models=None, loops=N
         args, kw = setup(ctx, it)
         holder['args'] = (args, kw)
         res = it.call_fn(fv, list(args), dict(kw), force_inline=True)
+        # goals are evaluated here, while the objects built by setup() for THIS path are still current
+        ctx.goal_list = list(goals(ctx, res))
         return ('ret', res)
 
     outs = explore(run, prune=prune, feas_timeout=feas_timeout, max_paths=max_paths)
@@ -53,7 +55,7 @@ def verify_function(prog, fv, setup, goals, contracts=None, models=None, loops=N
             rep.returning += 1
             it = None
             # goals need the interpreter's arguments of this path: re-evaluated by closure in `goals`
-            for item in goals(ctx, oc[1]):
+            for item in ctx.goal_list:
                 cl, g = item[0], item[1]
                 extra_h = list(item[2]) if len(item) > 2 else []
                 obs.append(Obligation(f"{fname}::{cl}[p{pid}]", list(ctx.pc) + extra_h,
